@@ -8,7 +8,9 @@ import HdwModel.Model.CliHex
 import HdwModel.Model.Mnemonic
 import HdwModel.Model.Hdk
 import HdwModel.Driver.NfkdData
+import HdwModel.Model.Tx
 import HdwModel.Driver.Judge
+import HdwModel.Driver.JudgeTx
 
 namespace Hdw.Driver
 open Hdw
@@ -34,6 +36,23 @@ def sigArg (r s par : String) : Option Sig := do
   let p ← par.toNat?
   if r.length > 32 || s.length > 32 || p > 1 then none
   else if Sig.validScalars (beVal r) (beVal s) then some ⟨beVal r, beVal s, p == 1⟩ else none
+
+def optAddrStr (a : Option Bytes) : String := match a with
+  | some b => hx b
+  | none => "none"
+
+def alStr (al : List Tx.AccessEntry) : String :=
+  if al.isEmpty then "-" else
+  ",".intercalate (al.map fun e => ":".intercalate (String.ofList (hexEncode e.addr) :: e.slots.map fun s => String.ofList (hexEncode s)))
+
+def txFields : Tx.Tx → List String
+  | .legacy c n gp g to v d =>
+    ["legacy", (match c with | some c => nat256hex c | none => "none"), nat256hex n, nat256hex gp, nat256hex g,
+     optAddrStr to, nat256hex v, hx d]
+  | .eip2930 c n gp g to v d al =>
+    ["eip2930", nat256hex c, nat256hex n, nat256hex gp, nat256hex g, optAddrStr to, nat256hex v, hx d, alStr al]
+  | .eip1559 c n p f g to v d al =>
+    ["eip1559", nat256hex c, nat256hex n, nat256hex p, nat256hex f, nat256hex g, optAddrStr to, nat256hex v, hx d, alStr al]
 
 def runOp (env : Env) (parts : List String) : Resp :=
   match parts with
@@ -104,6 +123,46 @@ def runOp (env : Env) (parts : List String) : Resp :=
         Account.trySign P CV d digest
       ofRes r sigFields
     | _, _ => .harness "bad arg"
+  | ["tx.parse", j] =>
+    match unhex j with
+    | some j => ofRes (Tx.parse j) txFields
+    | none => .harness "bad arg"
+  | ["tx.sign", j, key] =>
+    match unhex j, unhex key with
+    | some j, some key =>
+      match Account.new CV key with
+      | .ok d =>
+        let r : Res (Bytes × Bytes × Sig) := do
+          let tx ← Tx.parse j
+          let digest ← Tx.signingMessage P tx
+          let σ ← Account.trySign P CV d digest
+          let enc ← Tx.encode tx σ
+          pure (digest, enc, σ)
+        ofRes r fun (digest, enc, σ) => [hx digest, hx enc] ++ sigFields σ
+      | _ => .harness "key"
+    | _, _ => .harness "bad arg"
+  | ["tx.encode", j, r, s, par] =>
+    match unhex j, sigArg r s par with
+    | some j, some σ =>
+      let res : Res (Bytes × Bytes) := do
+        let tx ← Tx.parse j
+        let digest ← Tx.signingMessage P tx
+        let enc ← Tx.encode tx σ
+        pure (digest, enc)
+      ofRes res fun (digest, enc) => [hx digest, hx enc]
+    | _, _ => .harness "bad arg"
+  | ["json.f64", lit] =>
+    match utf8Arg lit with
+    | some s =>
+      match Json.parseValueDoc (Utf8.encode s) with
+      | some (.num n) =>
+        match SerdeNum.classify n with
+        | some (.u64 v) => .ok [String.ofList (hexEncode (beFixed 8 (F64.bits false (F64.ofNat v))))]
+        | some (.i64 m) => .ok [String.ofList (hexEncode (beFixed 8 (F64.bits true (F64.ofNat m))))]
+        | some (.f64 neg f) => .ok [String.ofList (hexEncode (beFixed 8 (F64.bits neg f)))]
+        | none => .err
+      | _ => .err
+    | none => .harness "bad arg"
   | ["path.parse", a] =>
     match utf8Arg a with
     | some s => ofRes (Path.parse s) fun p =>
@@ -179,6 +238,9 @@ def judgeOp (env : Env) (parts : List String) (resp : String) : Verdict :=
     match n.toNat?, (if ent == "fail" then some none else (unhex ent).map some) with
     | some n, some inject => judgeMnRandom n inject resp
     | _, _ => .skip
+  | ["tx.parse", j] => match unhex j with
+    | some j => judgeTxParse j resp
+    | none => .skip
   | ["hdk.derive", seed, path] => match unhex seed, utf8Arg path with
     | some seed, some path => judgeDerive seed (String.ofList path) resp
     | _, _ => .skip
